@@ -91,9 +91,14 @@ class Model:
         return set(self.ds[nm].dims) <= self.adims
 
     def interp_to(self, nm):
-        """-> (values, dims, exact) ; exact False when a move between two non-center positions is needed."""
+        """-> (lo, hi, dims, exact).  A move that involves the center position is modelled exactly (lo == hi).  For a
+        move between two non-center positions the statement fixes no formula, only "interpolated ... with nearest-value
+        extension": whatever the scheme (direct shift, two linear hops through the center), every output value is a
+        convex combination of source values within 1.5 cells of its location, the array ends being extended by their
+        nearest value - so it must lie between the local minimum and maximum of the source."""
         v = self.ds[nm]
-        vals, dims = v.values, list(v.dims)
+        lo = hi = v.values
+        dims = list(v.dims)
         exact = True
         for a in self.axn:
             ps = [p for p, d in self.cm[a].items() if d in dims]
@@ -107,16 +112,23 @@ class Model:
                 continue
             k = dims.index(self.cm[a][frm])
             if "center" in (frm, to):
-                moved = np.moveaxis(vals, k, -1)
-                res = stencil.op_last_axis(moved, "interp", frm, to, self.ns[a], "extend", 0.0)
-                vals = np.moveaxis(res, -1, k)
+                lo = np.moveaxis(stencil.op_last_axis(np.moveaxis(lo, k, -1), "interp", frm, to, self.ns[a], "extend", 0.0), -1, k)
+                hi = lo if exact else np.moveaxis(stencil.op_last_axis(np.moveaxis(hi, k, -1), "interp", frm, to, self.ns[a], "extend", 0.0), -1, k)
             else:
                 exact = False
-                shp = list(vals.shape)
-                shp[k] = self.ds.sizes[self.cm[a][to]]
-                vals = np.full(shp, np.nan)
+                xi, xo = stencil.xs(frm, self.ns[a]), stencil.xs(to, self.ns[a])
+                ml, mh = np.moveaxis(lo, k, -1), np.moveaxis(hi, k, -1)
+                los, his = [], []
+                for x in xo:
+                    idx = [j for j, xv in enumerate(xi) if abs(xv - x) <= 1.5]
+                    if not idx:
+                        idx = [int(np.argmin([abs(xv - x) for xv in xi]))]
+                    los.append(ml[..., idx].min(-1))
+                    his.append(mh[..., idx].max(-1))
+                lo = np.moveaxis(np.stack(los, -1), -1, k)
+                hi = np.moveaxis(np.stack(his, -1), -1, k)
             dims[k] = self.cm[a][to]
-        return vals, dims, exact
+        return lo, hi, dims, exact
 
     def block_options(self, block):
         lst = self.reg.get(frozenset(block))
@@ -124,7 +136,7 @@ class Model:
             return None
         here = [nm for nm in lst if self.at_pos(nm)]
         if here:
-            return [("at", nm, self.ds[nm].values, list(self.ds[nm].dims), True) for nm in here]
+            return [("at", nm, self.ds[nm].values, self.ds[nm].values, list(self.ds[nm].dims), True) for nm in here]
         return [("interp", nm) + self.interp_to(nm) for nm in lst]
 
     def levels(self, q):
@@ -150,11 +162,13 @@ class Model:
                 if any(o is None for o in opts):
                     continue
                 for combo in itertools.product(*opts):
-                    prod = 1
-                    exact = all(c[4] for c in combo)
+                    plo = phi = 1
+                    exact = all(c[5] for c in combo)
                     for c in combo:
-                        prod = prod * xr.DataArray(c[2], dims=c[3])
-                    cands.append(([(c[0], c[1]) for c in combo], prod, exact))
+                        # metrics are positive, so bounds multiply
+                        plo = plo * xr.DataArray(c[2], dims=c[4])
+                        phi = phi * xr.DataArray(c[3], dims=c[4])
+                    cands.append(([(c[0], c[1]) for c in combo], plo, exact, phi))
             if cands:
                 return li, cands
         return None, []
@@ -207,10 +221,16 @@ def run_case(ctx, desc):
     inexact = [c for c in cands if not c[2]]
     ok = any(c[2] and same_by_name(r, c[1]) for c in cands)
     if not ok and inexact:
-        # a block had to be moved between two non-center positions: the statement does not fix those numbers;
-        # dims were checked above
-        ctx.count("noncenter_move_dims_only")
-        ok = any(set(r.dims) == set(c[1].dims) for c in inexact)
+        # a block had to be moved between two non-center positions: the statement fixes no formula for that, only
+        # nearest-value extension, so the values are judged against local [min, max] bounds of the source
+        ctx.count("noncenter_move_judged_by_local_bounds")
+        for c in inexact:
+            if set(r.dims) != set(c[1].dims):
+                continue
+            rv = r.transpose(*c[1].dims).values
+            if np.all(rv >= c[1].values - 1e-12) and np.all(rv <= c[3].values + 1e-12):
+                ok = True
+                break
     if not ok:
         ctx.violation("get_metric-acceptable-set", f"returned metric equals none of {len(cands)} acceptable candidates {[c[0] for c in cands][:4]} (level {level}, array pos {desc['apos']}, query {q})")
         return
